@@ -201,6 +201,12 @@ DeltaCases ==
               IN PlaceAt(<<40, 24>>, a, nw, nh)] :
         k \in {"rect", "ellipse"}, a \in {"tl", "c", "br", "t", "l"},
         m \in {<<"abs", 4, 8>>, <<"abs", -4, 0>>, <<"pct", 50, 150>>, <<"pct", 200, 100>>}}
+    \cup
+    \* a circle has one size: the same delta on both axes changes it once
+    {[fam |-> "rel", form |-> "delta", kind |-> "circle", w |-> 8, h |-> 8, anchor |-> a, mode |-> m[1], a1 |-> m[2], a2 |-> m[3],
+      exp |-> LET n == IF m[1] = "abs" THEN 8 + m[2] ELSE Div(8 * m[2], 100)
+              IN PlaceAt(<<40, 24>>, a, n, n)] :
+        a \in {"tl", "c", "br"}, m \in {<<"abs", 4, 4>>, <<"abs", -4, -4>>, <<"pct", 50, 50>>, <<"pct", 200, 200>>}}
 
 \* reuse placement (C18): an instance of a template drawn at the origin is placed with its
 \* top-left at the reuse element's x/y (a shape) or translated there (a group)
